@@ -143,8 +143,17 @@ EXTRA["C09"] = {
             "arms for :resume / :skip / :abort / :replace are executed (1 command quick, 2 thorough) followed by "
             ":resume, each running the real eval loop on whatever is pending. Decided: no panic obligation is reachable "
             "and every command returns one Response. Candidates are replayed as scripted `garden json` sessions (every "
-            "request answered, a final probe still answered).",
-    "note": "Trusted: rsx, std models, z3; pending sub-expressions evaluate to one fresh symbolic value. The reader "
+            "request answered, a final probe still answered). Part B (value-balance kernel, an inductive step): from "
+            "every balanced stopped state within the bound (1..2 frames, 0..2 pending entries, each popping 0..1 operands "
+            "(thorough 0..2) with a symbolic value_is_used flag, operand stacks of height 0..3) one request - the real "
+            ":resume / :skip / :abort / :replace arms or a new evaluation through the real eval_toplevel_exprs_then_stop - "
+            "runs the real eval loop (frame exit, restore_stack_frame, pop_to_toplevel) with eval_expr replaced by a stub "
+            "that pops its operands, fails or completes; z3 decides that the state afterwards is balanced again and no "
+            "pop finds an empty stack, so by induction no request sequence of any length reaches a missing operand.",
+    "note": "Part B abstracts each pending entry to (operands popped, value_is_used) and assumes failing steps restore "
+            "exactly what they popped (C07); a broken step is reported only when a continuation found by the same engine "
+            "kills a real session on a library of 11 stopped programs. "
+            "Trusted: rsx, std models, z3; pending sub-expressions evaluate to one fresh symbolic value. The reader "
             "thread, stdin framing, serde_json and the ~25 printing commands of run_command are outside the claim; quick "
             "uses one representative built-in per call form.",
     "design_ref": "DESIGN.md section 6, C09",
